@@ -339,17 +339,30 @@ func recoverProducer(p iterator.Producer[Value]) iterator.Producer[Value] {
 	}
 }
 
+// stageItem is what travels through a stage that may run in parallel. The parallel iterators
+// report the first error a worker has returned together with the next item in sequence,
+// which may be an earlier one. An item behind the point where the consumer stops would then
+// fail a pipeline that never gets that far if it is run sequentially. So the workers never
+// return an error; the outcome of an item, also an error item of the source, is carried as
+// a stageItem and is unpacked in sequence by autoParallelStage.
+type stageItem struct {
+	val  Value
+	err  error
+	drop bool // the item is not part of the result (accept)
+}
+
 // autoParallelStage creates a stage that may decide to process its items in parallel
-// (iterator.MapAuto, iterator.FilterAuto). The build function gets the source to use and a
-// function it has to call whenever a new worker function is created. Two things are taken
-// care of, which both arise because in parallel mode the consumer is called from a collector
-// goroutine:
+// (iterator.MapAuto). The build function gets the source to use and a function it has
+// to call whenever a new worker function is created. Three things are taken care of,
+// which arise because in parallel mode the consumer is called from a collector goroutine
+// and the items are processed ahead of the consumer:
 //   - A panic of the consumer is caught and raised again in the goroutine which iterates
 //     the stage, where it is recovered like any other panic.
 //   - If the consumer stops the iteration early, the parallel workers are blocked forever
 //     because nobody reads their results anymore. So in parallel mode the source is stopped
 //     instead, and the few items still in flight are discarded.
-func autoParallelStage(source iterator.Producer[Value], build func(source iterator.Producer[Value], workerCreated func()) iterator.Producer[Value]) iterator.Producer[Value] {
+//   - Errors are delivered at the position of the item they belong to, see stageItem.
+func autoParallelStage(source iterator.Producer[Value], build func(source iterator.Producer[stageItem], workerCreated func()) iterator.Producer[stageItem]) iterator.Producer[Value] {
 	return func(yield iterator.Consumer[Value]) {
 		var workers atomic.Int32
 		var stopped atomic.Bool
@@ -362,12 +375,12 @@ func autoParallelStage(source iterator.Producer[Value], build func(source iterat
 			}
 			return false
 		}
-		stoppableSource := func(y iterator.Consumer[Value]) {
+		stoppableSource := func(y iterator.Consumer[stageItem]) {
 			source(func(v Value, err error) bool {
 				if stopped.Load() {
 					return false
 				}
-				cont := y(v, err)
+				cont := y(stageItem{val: v, err: err}, nil)
 				// In parallel mode an error item is just handed to the workers and the
 				// source is asked to go on. No consumer reads beyond an error, and some
 				// sources go on with an invalid item after they have reported an error,
@@ -376,8 +389,8 @@ func autoParallelStage(source iterator.Producer[Value], build func(source iterat
 			})
 		}
 		stage := build(stoppableSource, func() { workers.Add(1) })
-		stage(func(v Value, err error) (cont bool) {
-			if stopped.Load() {
+		stage(func(item stageItem, _ error) (cont bool) {
+			if stopped.Load() || item.drop {
 				return true
 			}
 			defer func() {
@@ -386,7 +399,7 @@ func autoParallelStage(source iterator.Producer[Value], build func(source iterat
 					cont = stop()
 				}
 			}()
-			if yield(v, err) {
+			if yield(item.val, item.err) {
 				return true
 			}
 			return stop()
@@ -405,26 +418,28 @@ func (l *List) Accept(sta funcGen.Stack[Value]) (*List, error) {
 	return NewListFromIterable(func(st funcGen.Stack[Value]) iterator.Producer[Value] {
 		// If the filter runs in parallel, the consumer of this list runs concurrently to the
 		// producer of the source list. So they must not share the stack.
-		return autoParallelStage(l.iterable(funcGen.NewEmptyStack[Value]()), func(source iterator.Producer[Value], workerCreated func()) iterator.Producer[Value] {
-			return iterator.FilterAuto[Value](source, func() func(v Value) (bool, error) {
+		return autoParallelStage(l.iterable(funcGen.NewEmptyStack[Value]()), func(source iterator.Producer[stageItem], workerCreated func()) iterator.Producer[stageItem] {
+			return iterator.MapAuto[stageItem, stageItem](source, func() func(i int, item stageItem) (stageItem, error) {
 				workerCreated()
 				s := funcGen.NewEmptyStack[Value]()
-				return func(v Value) (acc bool, err error) {
+				return func(i int, item stageItem) (res stageItem, _ error) {
+					if item.err != nil {
+						return item, nil
+					}
 					// may run in a worker goroutine
 					defer func() {
 						if rec := recover(); rec != nil {
-							acc = false
-							err = panicToError(rec)
+							res = stageItem{err: panicToError(rec)}
 						}
 					}()
-					eval, err := f.Eval(s, v)
+					eval, err := f.Eval(s, item.val)
 					if err != nil {
-						return false, err
+						return stageItem{err: err}, nil
 					}
 					if accept, ok := eval.(Bool); ok {
-						return bool(accept), nil
+						return stageItem{val: item.val, drop: !bool(accept)}, nil
 					}
-					return false, fmt.Errorf("function in accept does not return a bool")
+					return stageItem{err: fmt.Errorf("function in accept does not return a bool")}, nil
 				}
 			})
 		})
@@ -439,19 +454,22 @@ func (l *List) Map(sta funcGen.Stack[Value]) (*List, error) {
 	return NewListFromSizedIterable(func(st funcGen.Stack[Value]) iterator.Producer[Value] {
 		// If the mapping runs in parallel, the consumer of this list runs concurrently to the
 		// producer of the source list. So they must not share the stack.
-		return autoParallelStage(l.iterable(funcGen.NewEmptyStack[Value]()), func(source iterator.Producer[Value], workerCreated func()) iterator.Producer[Value] {
-			return iterator.MapAuto[Value, Value](source, func() func(i int, v Value) (Value, error) {
+		return autoParallelStage(l.iterable(funcGen.NewEmptyStack[Value]()), func(source iterator.Producer[stageItem], workerCreated func()) iterator.Producer[stageItem] {
+			return iterator.MapAuto[stageItem, stageItem](source, func() func(i int, item stageItem) (stageItem, error) {
 				workerCreated()
 				s := funcGen.NewEmptyStack[Value]()
-				return func(i int, v Value) (val Value, err error) {
+				return func(i int, item stageItem) (res stageItem, _ error) {
+					if item.err != nil {
+						return item, nil
+					}
 					// may run in a worker goroutine
 					defer func() {
 						if rec := recover(); rec != nil {
-							val = nil
-							err = panicToError(rec)
+							res = stageItem{err: panicToError(rec)}
 						}
 					}()
-					return f.Eval(s, v)
+					val, err := f.Eval(s, item.val)
+					return stageItem{val: val, err: err}, nil
 				}
 			})
 		})
